@@ -1,5 +1,5 @@
-CONSTANTS Graphs = {"line", "tri", "dead", "selfl", "pair"} T = 3 QE = {0, 1, 2, 3} QN = {0, 1, 2} NodeModes = {TRUE, FALSE} NEs = {TRUE, FALSE}
-  Widths = {0, 1, 2} Cuts = {"none", "dist", "init", "prob", "both"} MaxOps = 1 SAMPLE = 6 Moves = {"m11", "m00"} EMIT = FALSE
+CONSTANTS Graphs = {"selfl", "line", "tri"} T = 3 QE = {0, 1, 2, 3} QN = {0, 1, 2} NodeModes = {FALSE} NEs = {TRUE}
+  Widths = {0} Cuts = {"none", "dist", "prob"} MaxOps = 1 SAMPLE = 40 Moves = {"m11"} EMIT = FALSE
   ExhGraphs = {} Debugs = {FALSE}
 SPECIFICATION Spec
 INVARIANT C19all
